@@ -1,5 +1,5 @@
 (* C12 — text-level theorems: line-ending style and trailing newline under apply_hunks_to_text. *)
-From RipV Require Import Base.Prelude Base.Fs Model.Patch.
+From RipV Require Import Base.Prelude Base.Fs Model.Patch Proofs.FsProofs.
 Open Scope N_scope.
 Open Scope list_scope.
 
@@ -238,16 +238,6 @@ Proof.
 Qed.
 
 (* a file without any CR stays without CR when the patch adds none *)
-Lemma split_aux_in c : forall s cur piece x, In piece (split_aux c cur s) -> In x piece -> In x cur \/ In x s.
-Proof.
-  induction s as [|y s IH]; intros cur piece x IP IX; cbn [split_aux] in IP.
-  - destruct IP as [<-|[]]. left. apply in_rev. exact IX.
-  - destruct (y =? c).
-    + destruct IP as [<-|IP]; [left; apply in_rev; exact IX|].
-      destruct (IH [] piece x IP IX) as [[]|I]. right. right. exact I.
-    + destruct (IH (y :: cur) piece x IP IX) as [[->|I]|I]; [right; left; reflexivity|left; exact I|right; right; exact I].
-Qed.
-
 Lemma intercalate_in sep (ls : list line) x : In x (intercalate sep ls) -> In x sep \/ exists l, In l ls /\ In x l.
 Proof.
   induction ls as [|a ls IH]; [intros []|]. destruct ls as [|b r].
